@@ -1,3 +1,415 @@
 package main
 
-func tryReplay(g *Global, o *Obligation, path string) bool { return false }
+import (
+	"encoding/json"
+	"fmt"
+	"go/types"
+	"os"
+	"os/exec"
+	"path/filepath"
+	"strconv"
+	"strings"
+)
+
+// Generic replay of a counterexample on the real code, for package-level functions (and methods are skipped)
+// whose parameters are integers, booleans, strings and byte slices. The model's inputs are poured into an
+// in-package test injected with `go test -overlay` (nothing is written into the repository); the real function
+// is run; a safety obligation is confirmed by the panic, a postcondition by evaluating the violated clause
+// on the concrete inputs and outputs with the solver.
+
+const replayMaxLen = 48
+
+func replayable(t types.Type) bool {
+	return isInteger(t) || isBool(t) || isString(t) || isByteSlice(t) && intBits(t.Underlying().(*types.Slice).Elem()) == 8
+}
+
+// valueQueries returns the get-value terms for the parameters of o's function.
+func valueQueries(o *Obligation) (terms []string, ok bool) {
+	vc := o.vc
+	fn := vc.fn
+	if fn.Signature.Recv() != nil || fn.Parent() != nil || len(fn.FreeVars) > 0 {
+		return nil, false
+	}
+	for _, p := range fn.Params {
+		if !replayable(p.Type()) {
+			return nil, false
+		}
+		v := vc.params[p.Name()]
+		if v == nil {
+			return nil, false
+		}
+		switch {
+		case isString(p.Type()):
+			terms = append(terms, sx("gs.len", v.S))
+			for i := 0; i < replayMaxLen; i++ {
+				terms = append(terms, sx("gs.at", v.S, fmt.Sprint(i)))
+			}
+		case isByteSlice(p.Type()):
+			terms = append(terms, sx("s.len", v.S))
+			for i := 0; i < replayMaxLen; i++ {
+				terms = append(terms, sx("select", sx("select", entrySym("M!Int"), sx("s.base", v.S)), sx("+", sx("s.off", v.S), fmt.Sprint(i))))
+			}
+		default:
+			terms = append(terms, v.S)
+		}
+	}
+	return terms, true
+}
+
+func parseSMTInt(s string) (int64, bool) {
+	s = strings.TrimSpace(s)
+	neg := false
+	if strings.HasPrefix(s, "(-") {
+		neg = true
+		s = strings.TrimSuffix(strings.TrimSpace(s[2:]), ")")
+	}
+	n, err := strconv.ParseInt(strings.TrimSpace(s), 10, 64)
+	if err != nil {
+		return 0, false
+	}
+	if neg {
+		n = -n
+	}
+	return n, true
+}
+
+// tryReplay returns true if the failing obligation was reproduced on the real code.
+func tryReplay(g *Global, o *Obligation, path string) bool {
+	terms, ok := valueQueries(o)
+	if ok && o.Result.Status != "sat" && o.Candidate == "" {
+		if r2 := solve(stripQuantified(o.script()), 5, nil); r2.Status == "sat" {
+			o.Candidate = r2.Output
+		}
+	}
+	if o.Result.Status != "sat" && o.Candidate == "" {
+		return false
+	}
+	if !ok {
+		appendFile(path, "\nreplay: not attempted (the function's parameters are outside the generic replay subset)\n")
+		return false
+	}
+	script := o.script()
+	if o.Result.Status != "sat" {
+		script = stripQuantified(script)
+	}
+	// ask for the parameter values one term per get-value so that answers are easy to parse
+	var q strings.Builder
+	for _, t := range terms {
+		q.WriteString("(get-value (" + t + "))\n")
+	}
+	// prefer small inputs
+	var small []string
+	for _, p := range o.vc.fn.Params {
+		v := o.vc.params[p.Name()]
+		if isString(p.Type()) {
+			small = append(small, sx("<=", sx("gs.len", v.S), "12"))
+		} else if isByteSlice(p.Type()) {
+			small = append(small, sx("<=", sx("s.len", v.S), "12"))
+		}
+	}
+	vals, err := solveValues(script+"\n(assert "+smtAnd(small...)+")\n", q.String(), len(terms))
+	if err != nil {
+		vals, err = solveValues(stripQuantified(script)+"\n(assert "+smtAnd(small...)+")\n", q.String(), len(terms))
+	}
+	if err != nil {
+		vals, err = solveValues(script, q.String(), len(terms))
+	}
+	if err != nil {
+		appendFile(path, "\nreplay: could not extract input values from the model: "+err.Error()+"\n")
+		return false
+	}
+	fn := o.vc.fn
+	var args []string
+	var desc []string
+	i := 0
+	for _, p := range fn.Params {
+		switch {
+		case isString(p.Type()), isByteSlice(p.Type()):
+			n, _ := parseSMTInt(vals[i])
+			i++
+			if n > replayMaxLen || n < 0 {
+				appendFile(path, fmt.Sprintf("\nreplay: model needs an input of length %d (> %d): not replayed\n", n, replayMaxLen))
+				return false
+			}
+			bs := make([]byte, n)
+			for k := 0; k < replayMaxLen; k++ {
+				if int64(k) < n {
+					b, _ := parseSMTInt(vals[i+k])
+					bs[k] = byte(b)
+				}
+			}
+			i += replayMaxLen
+			lit := strconv.Quote(string(bs))
+			if isByteSlice(p.Type()) {
+				args = append(args, "[]byte("+lit+")")
+			} else {
+				args = append(args, typeConv(p.Type(), fn.Pkg.Pkg, lit))
+			}
+			desc = append(desc, p.Name()+" = "+lit)
+		case isBool(p.Type()):
+			args = append(args, vals[i])
+			desc = append(desc, p.Name()+" = "+vals[i])
+			i++
+		default:
+			n, _ := parseSMTInt(vals[i])
+			i++
+			args = append(args, typeConv(p.Type(), fn.Pkg.Pkg, fmt.Sprint(n)))
+			desc = append(desc, fmt.Sprintf("%s = %d", p.Name(), n))
+		}
+	}
+	nres := fn.Signature.Results().Len()
+	var lhs []string
+	for k := 0; k < nres; k++ {
+		lhs = append(lhs, fmt.Sprintf("r%d", k))
+	}
+	call := fn.Name() + "(" + strings.Join(args, ", ") + ")"
+	var body strings.Builder
+	body.WriteString("package " + fn.Pkg.Pkg.Name() + "\n\nimport (\n\t\"encoding/json\"\n\t\"fmt\"\n\t\"testing\"\n)\n\n")
+	body.WriteString("func TestGovcReplay(t *testing.T) {\n\tdefer func() {\n\t\tif r := recover(); r != nil {\n\t\t\tfmt.Printf(\"GOVC-REPLAY-PANIC %v\\n\", r)\n\t\t}\n\t}()\n")
+	if nres > 0 {
+		body.WriteString("\t" + strings.Join(lhs, ", ") + " := " + call + "\n")
+		body.WriteString("\tout, _ := json.Marshal([]any{")
+		for k := 0; k < nres; k++ {
+			rt := fn.Signature.Results().At(k).Type()
+			switch {
+			case isString(rt):
+				body.WriteString(fmt.Sprintf("[]byte(string(r%d)), ", k))
+			case isInteger(rt):
+				body.WriteString(fmt.Sprintf("int64(r%d), ", k))
+			case isBool(rt):
+				body.WriteString(fmt.Sprintf("bool(r%d), ", k))
+			case types.Identical(rt, types.Universe.Lookup("error").Type()):
+				body.WriteString(fmt.Sprintf("r%d == nil, ", k))
+			default:
+				body.WriteString(fmt.Sprintf("fmt.Sprint(r%d), ", k))
+			}
+		}
+		body.WriteString("})\n\tfmt.Printf(\"GOVC-REPLAY-RESULT %s\\n\", out)\n")
+	} else {
+		body.WriteString("\t" + call + "\n\tfmt.Println(\"GOVC-REPLAY-RESULT []\")\n")
+	}
+	body.WriteString("}\n")
+	pkgDir := ""
+	for f := range g.files {
+		if gf := g.files[f]; gf != nil && gf.Name.Name == fn.Pkg.Pkg.Name() && strings.HasPrefix(f, g.repo) {
+			if pos := g.fset.Position(fn.Pos()); filepath.Dir(pos.Filename) == filepath.Dir(f) {
+				pkgDir = filepath.Dir(f)
+				break
+			}
+		}
+	}
+	if pkgDir == "" {
+		appendFile(path, "\nreplay: package directory not found\n")
+		return false
+	}
+	testFile := filepath.Join(scratch(), fmt.Sprintf("replay%d_test.go", os.Getpid()))
+	os.WriteFile(testFile, []byte(body.String()), 0o644)
+	ov, _ := json.Marshal(map[string]any{"Replace": map[string]string{filepath.Join(pkgDir, "zz_govc_replay_test.go"): testFile}})
+	ovFile := filepath.Join(scratch(), fmt.Sprintf("overlay%d.json", os.Getpid()))
+	os.WriteFile(ovFile, ov, 0o644)
+	cmd := exec.Command("go", "test", "-overlay", ovFile, "-vet=off", "-timeout", "60s", "-count=1", "-run", "^TestGovcReplay$", "-v", ".")
+	cmd.Dir = pkgDir
+	var env []string
+	for _, e := range os.Environ() {
+		if !strings.HasPrefix(e, "GOFLAGS=") {
+			env = append(env, e)
+		}
+	}
+	cmd.Env = append(env, "GOFLAGS=", "GOPROXY=off")
+	out, _ := cmd.CombinedOutput()
+	outs := string(out)
+	rep := "\n---- replay on the real code ----\ninputs: " + strings.Join(desc, "; ") + "\ncall: " + call + "\n"
+	confirmed := false
+	switch {
+	case strings.Contains(outs, "GOVC-REPLAY-PANIC"):
+		line := grepLine(outs, "GOVC-REPLAY-PANIC")
+		rep += "observed: " + line + "\n"
+		confirmed = isSafetyClass(o.Class)
+		if !confirmed {
+			rep += "the real function panics on this input (the failed obligation is a " + o.Class + " clause)\n"
+			confirmed = true
+		}
+	case strings.Contains(outs, "GOVC-REPLAY-RESULT"):
+		line := strings.TrimPrefix(grepLine(outs, "GOVC-REPLAY-RESULT"), "GOVC-REPLAY-RESULT ")
+		rep += "observed results: " + line + "\n"
+		if isSafetyClass(o.Class) {
+			rep += "no panic on this input: the model is an artefact of the abstraction (not reproduced)\n"
+		} else {
+			confirmed = checkClauseConcretely(o, script, terms, vals, line, &rep)
+		}
+	default:
+		rep += "replay did not run:\n" + firstLines(outs, 12) + "\n"
+	}
+	if confirmed {
+		rep += "REPRODUCED on the real code\n"
+	}
+	rep += "\n---- replay test ----\n" + body.String()
+	appendFile(path, rep)
+	return confirmed
+}
+
+func isSafetyClass(c string) bool {
+	switch c {
+	case "index", "slice", "nil", "assert-type", "nil-map", "div", "neg-make", "panic-call":
+		return true
+	}
+	return false
+}
+
+func grepLine(s, pat string) string {
+	for _, l := range strings.Split(s, "\n") {
+		if i := strings.Index(l, pat); i >= 0 {
+			return l[i:]
+		}
+	}
+	return ""
+}
+
+func typeConv(t types.Type, pkg *types.Package, lit string) string {
+	if n, ok := t.(*types.Named); ok {
+		name := n.Obj().Name()
+		if n.Obj().Pkg() != nil && n.Obj().Pkg() != pkg {
+			return lit // foreign named types: rely on untyped constant conversion
+		}
+		return name + "(" + lit + ")"
+	}
+	if b, ok := t.(*types.Basic); ok && b.Kind() != types.Int && b.Kind() != types.String && b.Kind() != types.UntypedInt {
+		return b.Name() + "(" + lit + ")"
+	}
+	return lit
+}
+
+func appendFile(path, text string) {
+	f, err := os.OpenFile(path, os.O_APPEND|os.O_WRONLY, 0o644)
+	if err != nil {
+		return
+	}
+	defer f.Close()
+	f.WriteString(text)
+}
+
+// solveValues runs the script on z3 and returns the answers of the get-value commands in order.
+func solveValues(script, queries string, n int) ([]string, error) {
+	file := filepath.Join(scratch(), fmt.Sprintf("vals%d.smt2", os.Getpid()))
+	full := "(set-option :produce-models true)\n(set-logic ALL)\n" + script + "\n(check-sat)\n" + queries
+	os.WriteFile(file, []byte(full), 0o644)
+	defer os.Remove(file)
+	for _, bin := range []string{"z3-new", "z3"} {
+		out, _ := exec.Command(bin, "-T:20", "-smt2", file).CombinedOutput()
+		lines := strings.Split(strings.TrimSpace(string(out)), "\n")
+		if len(lines) == 0 || strings.TrimSpace(lines[0]) != "sat" {
+			continue
+		}
+		var vals []string
+		rest := strings.Join(lines[1:], "\n")
+		// each answer has the form ((term value))
+		depth, start := 0, -1
+		for i := 0; i < len(rest); i++ {
+			switch rest[i] {
+			case '(':
+				if depth == 0 {
+					start = i
+				}
+				depth++
+			case ')':
+				depth--
+				if depth == 0 && start >= 0 {
+					ans := rest[start : i+1]
+					vals = append(vals, lastValue(ans))
+					start = -1
+				}
+			}
+		}
+		if len(vals) >= n {
+			return vals[:n], nil
+		}
+	}
+	return nil, fmt.Errorf("no model values")
+}
+
+// lastValue extracts the value from "((term value))".
+func lastValue(ans string) string {
+	s := strings.TrimSpace(ans)
+	s = strings.TrimSuffix(strings.TrimSuffix(s, ")"), ")")
+	s = strings.TrimSpace(s)
+	if strings.HasSuffix(s, ")") {
+		// negative number "(- 5)"
+		i := strings.LastIndex(s, "(")
+		return s[i:]
+	}
+	i := strings.LastIndexAny(s, " \n\t")
+	return s[i+1:]
+}
+
+// checkClauseConcretely evaluates the violated clause on the concrete inputs and observed outputs.
+func checkClauseConcretely(o *Obligation, script string, terms, vals []string, resultJSON string, rep *string) bool {
+	var results []any
+	if err := json.Unmarshal([]byte(resultJSON), &results); err != nil {
+		*rep += "could not parse the observed results\n"
+		return false
+	}
+	// find the return values of the path this obligation belongs to: the obligation's goal mentions them;
+	// we constrain every recorded return tuple whose terms occur in the goal
+	var cons []string
+	for i, t := range terms {
+		cons = append(cons, sx("=", t, vals[i]))
+	}
+	bound := false
+	if rv := o.Rets; len(rv) == len(results) && len(rv) > 0 {
+		for k, v := range rv {
+			if v == nil || v.S == "" {
+				continue
+			}
+			switch r := results[k].(type) {
+			case float64:
+				cons = append(cons, sx("=", v.S, smtInt(int64(r))))
+			case bool:
+				if sortOf(v.T) == "Iface" {
+					if r {
+						cons = append(cons, sx("=", sx("i.tag", v.S), "0"))
+					} else {
+						cons = append(cons, smtNot(sx("=", sx("i.tag", v.S), "0")))
+					}
+				} else {
+					cons = append(cons, sx("=", v.S, fmt.Sprint(r)))
+				}
+			case string:
+				bs, err := decodeB64(r)
+				if err != nil || sortOf(v.T) != "Str" {
+					continue
+				}
+				cons = append(cons, sx("=", sx("gs.len", v.S), fmt.Sprint(len(bs))))
+				for j, b := range bs {
+					if j >= 256 {
+						break
+					}
+					cons = append(cons, sx("=", sx("gs.at", v.S, fmt.Sprint(j)), fmt.Sprint(b)))
+				}
+			}
+		}
+		bound = true
+	}
+	if !bound {
+		*rep += "could not bind the observed results to the verification condition\n"
+		return false
+	}
+	// script already asserts pc and (not goal); add the concrete facts. sat => the clause is false on the real run.
+	q := script + "\n(assert " + smtAnd(cons...) + ")\n"
+	r := solve(q, 10, nil)
+	switch r.Status {
+	case "sat":
+		*rep += "the violated clause evaluates to FALSE on these concrete inputs and outputs (" + r.Solver + ")\n"
+		return true
+	case "unsat":
+		*rep += "the clause holds on the concrete run: the model does not correspond to a real execution (not reproduced)\n"
+	default:
+		*rep += "the solver could not evaluate the clause on the concrete run (" + r.Status + ")\n"
+	}
+	return false
+}
+
+func decodeB64(s string) ([]byte, error) {
+	var b []byte
+	err := json.Unmarshal([]byte(strconv.Quote(s)), &b)
+	return b, err
+}
